@@ -12,9 +12,9 @@ package bft
 // A locked replica votes for a proposal only if it is the locked proposal itself or it is justified
 // by a +2/3 certificate from a LATER view than the lock.
 //@ func (*BFT).SafeNode
-//@   requires b.HighQC != nil && b.HighQC.Header != nil
+//@   requires b.HighQC != nil
 //@   ensures[justified] result == nil ==> msg != nil && msg.Qc != nil && msg.HighQc != nil && bytes(msg.HighQc.BlockHash) == blockHashOfBytes(bytes(msg.Qc.Block)) && bytes(msg.HighQc.ResultsHash) == resultsHashOf(msg.Qc.Results)
-//@   ensures[safe] result == nil ==> (bytes(b.HighQC.BlockHash) == bytes(msg.HighQc.BlockHash) && bytes(b.HighQC.ResultsHash) == bytes(msg.HighQc.ResultsHash)) || viewBefore(b.HighQC.Header, msg.HighQc.Header)
+//@   ensures[safe] result == nil && b.HighQC.Header != nil ==> (bytes(b.HighQC.BlockHash) == bytes(msg.HighQc.BlockHash) && bytes(b.HighQC.ResultsHash) == bytes(msg.HighQc.ResultsHash)) || viewBefore(b.HighQC.Header, msg.HighQc.Header)
 //@   ensures[frame] unchanged(b.HighQC)
 
 // ---- C14: double-sign evidence ---------------------------------------------------------------------
@@ -25,7 +25,7 @@ package bft
 // evidence implicates signers only if: both certificates verify for the committee, they are for the
 // same view, their signed payloads differ, the phase is past PROPOSE, and the evidence is not expired
 //@ func (*DoubleSignEvidence).Check
-//@   requires x != nil && x.VoteA != nil && x.VoteB != nil && x.VoteA.Header != nil && x.VoteB.Header != nil && x.VoteA != x.VoteB
+//@   requires x != nil && x.VoteA != nil && x.VoteB != nil && x.VoteA.Header != nil && x.VoteB.Header != nil
 //@   ensures[notexpired] result == nil ==> x.VoteA.Header.RootHeight >= minimumEvidenceHeight
 //@   ensures[verifiedA] result == nil ==> aggVerifies(committeeOf(vs.MultiKey), bytes(x.VoteA.Signature.Bitmap), signBytesOf(x.VoteA), bytes(x.VoteA.Signature.Signature))
 //@   ensures[verifiedB] result == nil ==> aggVerifies(committeeOf(vs.MultiKey), bytes(x.VoteB.Signature.Bitmap), signBytesOf(x.VoteB), bytes(x.VoteB.Signature.Signature))
